@@ -8,6 +8,7 @@ import (
 
 	"compiler/verifh/c01"
 	"compiler/verifh/c02"
+	"compiler/verifh/c03"
 	"compiler/verifh/c04"
 	"compiler/verifh/c05"
 	"compiler/verifh/c08"
@@ -17,6 +18,7 @@ import (
 	"compiler/verifh/c12"
 	"compiler/verifh/c16"
 	"compiler/verifh/c17"
+	"compiler/verifh/c19"
 	"compiler/verifh/c20"
 	"compiler/verifh/fe"
 	"compiler/verifh/vl"
@@ -25,6 +27,7 @@ import (
 var checks = map[string]func(*vl.Ctx){
 	"C01": c01.Run,
 	"C02": c02.Run,
+	"C03": c03.Run,
 	"C04": c04.Run,
 	"C05": c05.Run,
 	"C08": c08.Run,
@@ -34,6 +37,7 @@ var checks = map[string]func(*vl.Ctx){
 	"C12": c12.Run,
 	"C16": c16.Run,
 	"C17": c17.Run,
+	"C19": c19.Run,
 	"C20": c20.Run,
 }
 
